@@ -86,7 +86,7 @@ def po_uni(S):
 
 
 # ------------------------------------------------------------------------------------------------ Aave
-@proof("C02", "aave/status-is-the-current-row;frame-intact", strength="S", shapes={"quick": [{"tokens": "AB", "supplies": "A", "borrows": "B", "op": "A"}], "thorough": [{"tokens": "AB", "supplies": "A", "borrows": "B", "op": "A"}, {"tokens": "AB", "supplies": "AB", "borrows": "AB", "op": "B"}]},
+@proof("C02", "aave/status-is-the-current-row;frame-intact", strength="S", shapes={"quick": [{"tokens": "AB", "supplies": "A", "borrows": "B", "op": "A"}], "thorough": [{"tokens": "AB", "supplies": "A", "borrows": "B", "op": "A"}, {"tokens": "AB", "supplies": "AB", "borrows": "B", "op": "B"}]},
        contracts=AAVE_CONTRACTS)
 def po_aave(S):
     from demeter.aave._typing import AaveMarketStatus
@@ -130,9 +130,10 @@ def po_deribit(S):
         except REJECT:
             pass
         S.unchanged("frame-and-order-book-cells-intact-after-a-quote(estimate_cost)", f0, dump(frame_cells(m)))
+    cap = S.dec("max_mark_price_multiple", 1, 100) if S.bool("with_price_cap") else None     # the rarely used cap path filters the book first
     try:
-        m.buy("I0", S.dec("amount", None, None))
-        m.sell("I0", S.dec("amount2", None, None))
+        m.buy("I0", S.dec("amount", None, None), None, None, cap)
+        m.sell("I0", S.dec("amount2", None, None), None, None, cap)
     except REJECT:
         pass
     m.update()
